@@ -571,6 +571,117 @@ func e1b(kind string) {
 	}
 }
 
+// ---------------------------------------------------------------- E1-C: two operations at the same time
+//
+// Two threads each perform one operation of the alphabet on one registry (same endpoint and different endpoints); every
+// interleaving of their synchronisation steps (and of the asynchronous unification) within the preemption bound. When
+// both have returned and the registry is quiescent, every view must be what one of the two sequential orders gives.
+func scenarioConcurrent(kind string, a, b op, neps int) explore.Scenario {
+	var v *viol
+	name := fmt.Sprintf("%s concurrently [%s || %s]", kind, a, b)
+	return explore.Scenario{
+		Name: name, Horizon: 2000000,
+		Body: func() {
+			v = nil
+			reg := newRegistry(kind)
+			vsched.Go(func() { do(reg, b) })
+			do(reg, a)
+			vsched.WaitOthers()
+			var first *viol
+			for _, order := range [][]op{{a, b}, {b, a}} {
+				r := ref{}
+				resetRefSide()
+				for _, o := range order {
+					r.apply(o)
+				}
+				x := check(kind, reg, r, neps)
+				if x == nil {
+					return
+				}
+				if first == nil {
+					first = x
+				} else {
+					first = &viol{first.clause, first.detail + "; against [b, a]: " + x.detail}
+				}
+			}
+			v = first
+		},
+		Judge: func(out vsched.Outcome) explore.Verdict {
+			if out.Panic != "" || out.Deadlock || out.Lost || out.Horizon {
+				return explore.Verdict{OK: false, Clause: "crash-or-deadlock", Witness: map[string]any{"registry": kind, "mode": "concurrent"}, Detail: name + ": " + out.Panic + out.DeadInfo, Fingerprint: "crash", Collision: true}
+			}
+			if v == nil {
+				return explore.Verdict{OK: true, Fingerprint: "ok", Collision: len(out.Decisions) > 0}
+			}
+			return explore.Verdict{OK: false, Clause: "concurrent-updates-not-linearizable", Witness: map[string]any{"registry": kind, "mode": "concurrent", "view": v.clause},
+				Detail: name + ": the final state is neither that of [a, b] nor that of [b, a]; against [a, b]: " + v.detail, Fingerprint: v.clause + v.detail, Collision: true}
+		},
+	}
+}
+
+func e1c(kind string) {
+	models := []mvar{{"m1", "m1", "sha256:aaaa"}, {"m2", "m2", "sha256:cccc"}}
+	ops := opsFor(2, models, false)
+	idx := 1 << 20
+	reported := map[string]bool{}
+	bound := 2
+	if report.Thorough() {
+		bound = 3
+	}
+	for _, a := range ops {
+		for _, b := range ops {
+			if a.ep != 0 {
+				continue
+			}
+			idx++
+			if !report.Mine(idx) {
+				continue
+			}
+			if report.Expired() {
+				res.NotExhaustive("E1-C time budget")
+				return
+			}
+			sc := scenarioConcurrent(kind, a, b, 2)
+			ex := explore.New(0, 1, report.Deadline)
+			st := ex.Explore(sc, bound)
+			if st.Broken != "" {
+				res.Break("%s", st.Broken)
+				return
+			}
+			res.Add("traces_validated_against_impl", int64(st.Executions))
+			res.Add("sched_executions", int64(st.Executions))
+			res.Add("transitions", int64(st.Steps))
+			for fp := range st.Outcomes {
+				res.SetAdd("states", sc.Name+"|"+fp)
+			}
+			if st.Capped {
+				res.NotExhaustive("E1-C " + sc.Name)
+			}
+			for _, f := range st.Failures {
+				k := kind + "|" + f.Clause
+				if reported[k] {
+					continue
+				}
+				ok := true
+				for i := 0; i < 3; i++ {
+					if _, v := explore.Replay(sc, f.Schedule); v.OK || v.Clause != f.Clause {
+						ok = false
+					}
+				}
+				if !ok {
+					res.Note("unconfirmed_nondeterministic: %s %v", sc.Name, f.Schedule)
+					continue
+				}
+				reported[k] = true
+				res.Violate(f.Clause, f.Witness, f.Detail+fmt.Sprintf("\nschedule %v", f.Schedule), map[string]any{"engine": "sched", "part": "E1-C", "registry": kind, "ops": []string{a.String(), b.String()}, "schedule": f.Schedule})
+			}
+			if idx%23 == 1 {
+				res.Sample(map[string]any{"part": "E1-C", "scenario": sc.Name, "executions": st.Executions})
+			}
+		}
+	}
+}
+
 // ---------------------------------------------------------------- E2 filters
 
 // refGlob is the reference for filter patterns, written independently of the code under test: '*' stands for any
@@ -712,6 +823,7 @@ func main() {
 		explore.FreeRuns = report.FreeRun
 		for _, kind := range []string{"plain", "unified"} {
 			e1b(kind)
+			e1c(kind)
 		}
 		res.Add("free_runs", int64(explore.FreeRunsDone))
 		res.Finish()
@@ -727,7 +839,9 @@ func main() {
 	}
 	for _, kind := range []string{"plain", "unified"} {
 		e1b(kind)
+		e1c(kind)
 	}
+	res.Info["E1-C"] = "two threads, one operation each, on one registry (all ordered pairs over {m1,m2} listings and removals, first on e1, second on e1 or e2), every interleaving within 2 preemptions (3 thorough): at quiescence every view equals what [a,b] or [b,a] gives"
 	e2()
 	e3()
 	res.Info["E3"] = "through ModelDiscoveryService.DiscoverEndpoint with per-endpoint include/exclude filters: 6 x 6 filter pairs x all histories to depth 3 (4 thorough) over {endpoint lists any listing of size <=2 over m1,m2,n1; its discovery fails; it is removed} on 2 endpoints"
